@@ -124,6 +124,18 @@ MUTANTS = [
     ("c02-strip-two-characters", "C02", TOKF, "            token = token[:-1]\n\n            self.dictionary[token]", "            token = token[:-2]\n\n            self.dictionary[token]", {"TPL1"}),
     ("c06-next-note-filter-removed", "C06", ABS, "                        if message_pairing[1].time + possible_correction > possible_next_pairing[0].time:\n                            valid_durations.remove(note_value)", "                        if message_pairing[1].time + possible_correction > possible_next_pairing[0].time:\n                            pass", {"NEXT"}),
     ("c02-note-value-not-forced-int", "C02", TOKF, "                msg_value = int(msg_value)\n", "", {"NK2"}),
+    ("c16-merge-keeps-foreign-objects", "C16", SEQ, "        self.abs.merge([seq.abs for seq in sequences])\n        self.invalidate_rel()\n        self.normalise()", "        self.abs.merge([seq.abs for seq in sequences])\n        self.invalidate_rel()", {"ADOPT"}),
+    ("c17-equals-guard-negated", "C17", SEQ, "        if not isinstance(other, Sequence):\n            return False\n\n        return self.abs.equals(", "        if isinstance(other, Sequence):\n            return False\n\n        return self.abs.equals(", {"EQW"}),
+    ("c17-equals-flags-swapped", "C17", SEQ, "return self.abs.equals(other.abs, ignore_channel, ignore_time_signature, ignore_key_signature, ignore_velocity)", "return self.abs.equals(other.abs, ignore_channel, ignore_key_signature, ignore_time_signature, ignore_velocity)", {"EQW"}),
+    ("c12-file-never-written", "C12", SEQ, "        midi_file.save(file_path)\n", "", {"WRITE"}),
+    ("c12-mido-save-dropped", "C12", MF, "        mido_midi_file.save(path)", "        pass", {"WRITE"}),
+    ("c02-config-not-stored", "C02", TOKF, "        self.num_tracks = num_tracks\n", "", {"CONFIG"}),
+    ("c02-default-overwrites-given", "C02", TOKF, "        if self.note_values is None:\n            self.note_values = get_default_note_values()", "        if self.note_values is not None:\n            self.note_values = get_default_note_values()", {"CONFIG"}),
+    ("c02-vocabulary-built-conditionally", "C02", TOKF, "        # Construct dictionary\n        self._construct_dictionary()", "        # Construct dictionary\n        if flag_running_values:\n            self._construct_dictionary()", {"CONFIG"}),
+    ("c10-duration-subtracts", "C10", REL, "                duration += msg.time\n\n        return duration / PPQN", "                duration -= msg.time\n\n        return duration / PPQN", {"MEASURE"}),
+    ("c14-bar-key-guard-negated", "C14", BAR, "        if self.key_signature is not None:\n            self.key_signature = Key.transpose_key", "        if self.key_signature is None:\n            self.key_signature = Key.transpose_key", {"DELEG"}),
+    ("c04-sort-skipped-when-flagged", "C04", ABS, "        self._messages.sort(key=lambda x: (x.time, -1 if x.channel is None else x.channel, x.message_type, x.note))", "        if getattr(self, \"_sorted\", False):\n            return\n        self._messages.sort(key=lambda x: (x.time, -1 if x.channel is None else x.channel, x.message_type, x.note))", {"ABS-SORTED"}),
+    ("c20-position-from-range-table", "C20", MT, "        return CircleOfFifths.circle_of_fifths_order.index(Note(note_val % 12)) - 5", "        return [CircleOfFifths.circle_of_fifths_order.index(Note(v % 12)) - 5 for v in range(21, 109)][note_val - 21]", {"VS-POS", "VS-MOD"}),
     ("c09-alias-input", "C09", SEQ, "sequences = [sequence for sequence in sequences_input]", "sequences = sequences_input", {"PURE"}),
     ("c09-half-length", "C09", SEQ, "length_bar = int(PPQN * (current_ts_numerator / (current_ts_denominator / 4)))", "length_bar = int(PPQN * (current_ts_numerator / (current_ts_denominator / 2)))", {"LEN"}),
     ("c09-swapped-sig", "C09", SEQ, "Bar(sequence_to_add, current_ts_numerator, current_ts_denominator,", "Bar(sequence_to_add, current_ts_denominator, current_ts_numerator,", {"SIG"}),
